@@ -147,6 +147,57 @@ def body_random_items(kind, n, epochs, *args):
     return True
 
 
+def body_derived_items(kind, n, *args):
+    """datasets derived by filtering (predicate or exception based, also inside a prefetch) or by prefetching pair every yielded example with
+    its own key in items() - or refuse items() loudly (prefetching stages only); nothing is shifted onto the key of a dropped example"""
+    from lazy_dataset.core import DictDataset, FilterException
+    xs, t = list(args[:4]), args[4]
+    vals = rt.mk(n, xs)
+    src = DictDataset({rt.KEYS[j]: (rt.KEYS[j], v) for j, v in enumerate(vals)})      # every example carries its own key
+
+    def f(e):
+        if e[1] > t:
+            raise FilterException()
+        return e
+    may_refuse = kind.startswith('pf')
+    if kind == 'filter':
+        ds = src.filter(lambda e: not e[1] > t)
+    elif kind == 'filter_map':
+        ds = src.filter(lambda e: not e[1] > t).map(lambda e: (e[0], e[1] + 1))
+    elif kind == 'catch':
+        ds = src.map(f).catch()
+    elif kind == 'pf1_cfe':
+        ds = src.map(f).prefetch(1, 2, catch_filter_exception=True)
+    elif kind == 'pfw_cfe':
+        ds = src.map(f).prefetch(2, 2, catch_filter_exception=True)
+    elif kind == 'pfw3_cfe':
+        ds = src.map(f).prefetch(2, 3, catch_filter_exception=(FilterException,))
+    elif kind == 'pf1':
+        ds = src.prefetch(1, 2)
+    elif kind == 'pfw_filter':
+        ds = src.prefetch(2, 2).filter(lambda e: not e[1] > t)
+    else:   # 'pfw'
+        ds = src.prefetch(2, 2)
+    dropping = kind not in ('pf1', 'pfw')
+    want = [rt.KEYS[j] for j in range(n) if not (dropping and vals[j] > t)]
+    it = list(ds)
+    if [e[0] for e in it] != want:
+        return False
+    try:
+        items = list(ds.items())
+    except Exception:   # noqa
+        rt.reached()
+        return may_refuse
+    rt.reached()
+    if len(items) != len(want):
+        return False
+    for j in range(len(want)):
+        k, e = items[j]
+        if k != want[j] or e[0] != k or e != it[j]:
+            return False
+    return True
+
+
 def _maybe_keys(ds):
     try:
         ds.keys()
@@ -220,6 +271,11 @@ FAMILIES = [
            lambda tier, seed: [(k, n, e) for k in ('reshuffle', 'reshuffle_map', 'local', 'reshuffle_pf1', 'reshuffle_filter', 'frozen') for n in (0, 1, 2, 3)
                                for e in ((1, 2) if k != 'frozen' else (1,)) if n * e <= (4 if tier == 'quick' else 6)],
            timeout=dict(quick=150, thorough=300), desc='items() of reshuffled / locally shuffled / prefetched datasets pairs each example with its own key; frozen snapshots stay aligned'),
+    Family('derived_items', body_derived_items, ['kind', 'n'], [(f'x{i}', 'int') for i in range(4)] + [('t', 'int')],
+           lambda tier, seed: [(k, n) for k in ('filter', 'filter_map', 'catch', 'pf1_cfe', 'pfw_cfe', 'pfw3_cfe', 'pf1', 'pfw_filter', 'pfw')
+                               for n in range(0, 4 if tier == 'quick' else 5)],
+           timeout=dict(quick=150, thorough=300), desc='items() of filtered / exception-filtered / prefetched datasets (also catch_filter_exception inside a prefetch) '
+           'pairs each yielded example with its own key or - prefetching stages only - refuses'),
     Family('keys', body_keys, ['n', 'ops', 'warm'], U.POOL_PARAMS, conditions, timeout=dict(quick=150, thorough=300),
            desc='keys()/items() aligned with iteration; ds[key] returns the example of that key; absent or removed keys raise'),
 ]
